@@ -232,7 +232,10 @@ func gen(t *rapid.T) Case {
 	if evid.Tier() == "thorough" {
 		c.K = KSel{Mode: "all"}
 	} else {
-		c.K = KSel{Mode: "sample", Picks: rapid.SliceOfN(rapid.IntRange(0, 9999), 5, 5).Draw(t, "picks")}
+		c.K = KSel{Mode: "sample"}
+		for i := 0; i < 5; i++ {
+			c.K.Picks = append(c.K.Picks, pick(t, "kpick", 10000))
+		}
 	}
 	return c
 }
@@ -917,22 +920,20 @@ func judgeCrash(ref *refRun, d int, C *State, explicit map[string]bool) []*evid.
 		// (4) every tag present resolves to a complete image
 		for _, t := range sortedKeys(C.Tags) {
 			dg := C.Tags[t]
-			// parts that the operations themselves leave out (manifest pushed without its
-			// blobs, child deleted on purpose) at either boundary are not the crash's doing
-			allowed := map[string]bool{}
+			// An image that the operations themselves leave incomplete at either boundary of
+			// the interrupted operation (manifest pushed without its blobs, child deleted on
+			// purpose, GC run before the manifest that needs the blobs) is not the crash's doing.
+			exempt := false
 			for _, S := range []*State{Sd, Sn} {
-				if sd, ok := S.Tags[t]; ok && S.TagValue(t) == C.TagValue(t) {
-					for _, m := range S.MissingRel(sd) {
-						allowed[m] = true
-					}
+				if sd, ok := S.Tags[t]; ok && S.TagValue(t) == C.TagValue(t) && len(S.Missing(sd)) > 0 {
+					exempt = true
 				}
 			}
-			for _, m := range C.MissingRel(dg) {
-				if !allowed[m] {
-					m = strings.ReplaceAll(m, "TOP", dg)
-					add(missSig(dg, m), "tag %q -> %s is present but its image is incomplete: %s", t, short(dg), m)
-					break
-				}
+			if exempt {
+				continue
+			}
+			if miss := C.Missing(dg); len(miss) > 0 {
+				add(missSig(dg, miss[0]), "tag %q -> %s is present but its image is incomplete: %s", t, short(dg), strings.Join(miss, "; "))
 			}
 		}
 		// (6) index entries of completed operations
@@ -1050,16 +1051,9 @@ func judgeRerun(ref *refRun, d int, C, R *State, res *drvResult, victim []DrvOp,
 					add("rerun-referrer-extra-listed", "after repeating the interrupted operation(s) the referrers list %q lists %s, which the uninterrupted run does not", t, short(h))
 				}
 			}
-			if ok {
-				allowed := map[string]bool{}
-				for _, m := range Sm.MissingRel(Sm.Tags[t]) {
-					allowed[m] = true
-				}
-				for _, m := range R.MissingRel(rd) {
-					if !allowed[m] {
-						add("rerun-leaves-incomplete-image", "after repeating the interrupted operation(s) tag %q -> %s is incomplete: %s", t, short(rd), strings.ReplaceAll(m, "TOP", rd))
-						break
-					}
+			if ok && len(Sm.Missing(Sm.Tags[t])) == 0 {
+				if miss := R.Missing(rd); len(miss) > 0 {
+					add("rerun-leaves-incomplete-image", "after repeating the interrupted operation(s) tag %q -> %s is incomplete (complete in the uninterrupted run): %s", t, short(rd), strings.Join(miss, "; "))
 				}
 			}
 			continue
@@ -1072,14 +1066,9 @@ func judgeRerun(ref *refRun, d int, C, R *State, res *drvResult, victim []DrvOp,
 			add("rerun-tag-differs", "after repeating the interrupted operation(s) tag %q names %s, uninterrupted run: %s", t, short(rd), short(Sm.Tags[t]))
 			continue
 		}
-		allowed := map[string]bool{}
-		for _, m := range Sm.Missing(rd) {
-			allowed[m] = true
-		}
-		for _, m := range R.Missing(rd) {
-			if !allowed[m] {
-				add("rerun-leaves-incomplete-image", "after repeating the interrupted operation(s) tag %q -> %s is incomplete: %s", t, short(rd), m)
-				break
+		if len(Sm.Missing(rd)) == 0 {
+			if miss := R.Missing(rd); len(miss) > 0 {
+				add("rerun-leaves-incomplete-image", "after repeating the interrupted operation(s) tag %q -> %s is incomplete (complete in the uninterrupted run): %s", t, short(rd), strings.Join(miss, "; "))
 			}
 		}
 	}
@@ -1315,7 +1304,13 @@ func checkInner(c Case, ev *evid.Collector, shard, nshards int) ([]finding, erro
 				explicit[victim[i].Digest] = true
 			}
 		}
-		vs = append(vs, judgeRerun(ref, d, C, R, fres, victim, explicit)...)
+		for _, v := range judgeRerun(ref, d, C, R, fres, victim, explicit) {
+			if v.Sig == "rerun-leaves-incomplete-image" {
+				// which kind of operation was interrupted is part of the specific behaviour
+				v.Sig += "-after-interrupted-" + kinds[d]
+			}
+			vs = append(vs, v)
+		}
 
 		nt := populated
 		key := kinds[d] + "|" + sysClass(at) + "|" + pcl
@@ -1418,8 +1413,18 @@ func TestVerifKinds(t *testing.T) {
 		nshards = 1
 	}
 	for i, c := range kindMatrix() {
-		// rotate the k residue per script so that shards are evenly loaded
-		v, err := runCase(ev, c, mod(shard+i, nshards), nshards)
+		heavy := false
+		for _, op := range c.Victim {
+			heavy = heavy || op.Kind == "copy" || op.Kind == "import"
+		}
+		var v *evid.Violation
+		var err error
+		if heavy {
+			// many crash positions: every shard takes a residue class of k (rotated per script)
+			v, err = runCase(ev, c, mod(shard+i, nshards), nshards)
+		} else if mod(i, nshards) == shard {
+			v, err = runCase(ev, c, 0, 1)
+		}
 		if v != nil {
 			t.Errorf("matrix case %d: %v", i, v)
 		}
@@ -1504,7 +1509,7 @@ func kindMatrix() []Case {
 		{{Kind: "put", Obj: Obj{"image", 1}}},            // untagged, by digest
 		{{Kind: "put", Obj: Obj{"image", 1}, Child: true}},
 		{{Kind: "put", Obj: Obj{"index", 3}, Tag: "v3"}},
-		{{Kind: "put", Obj: Obj{"artifact", 1}}},            // second referrer of image0
+		{{Kind: "put", Obj: Obj{"artifact", 1}}},             // second referrer of image0
 		{{Kind: "put", Obj: Obj{"artifact", 2}, Tag: "sig"}}, // tagged referrer of index0
 		{{Kind: "tagdel", Tag: "v1"}},
 		{{Kind: "mandel", Obj: Obj{"image", 4}}},
